@@ -50,12 +50,18 @@ pub struct Case {
     /// one more record: a unit repeated `.1` times, so that its k-mers occur exactly (or one less than) that often
     #[serde(default)]
     pub edge: Option<(crate::util::Bytes, usize)>,
+    /// one more record, a homopolymer with exactly this many windows (multiplicities 255, 256, 1000, 1024, 65535, 65536 +-1)
+    #[serde(default)]
+    pub poly: Option<usize>,
 }
 
 fn materialise(c: &Case) -> Vec<Rec> {
     let mut recs = c.recs.clone();
     if let Some((unit, r)) = &c.edge {
         recs.push(Rec { id: "edge_multiplicity".into(), desc: None, seq: crate::util::Bytes(unit.0.repeat(*r)) });
+    }
+    if let Some(mult) = c.poly {
+        recs.push(Rec { id: "poly".into(), desc: None, seq: crate::util::Bytes(vec![b'A'; mult + c.k - 1]) });
     }
     if let Some((i, min_len)) = c.stretch {
         if !recs.is_empty() {
@@ -130,7 +136,10 @@ pub fn check_vectors(data: &[u8], recs: &[Rec], counting: &[Rec], k: usize, bin_
 
 pub fn check_case(c0: &Case) -> Verdict {
     let mut v = Verdict::new();
-    let c = &Case { recs: materialise(c0), edge: None, ..c0.clone() };
+    let c = &Case { recs: materialise(c0), edge: None, poly: None, ..c0.clone() };
+    if let Some(m) = c0.poly {
+        v.class(format!("multiplicity-{}", m));
+    }
     v.class_if(c.recs.iter().any(|r| r.seq.0.len() > 65536), "record>65536");
     v.class_if(c0.edge.is_some(), "edge-multiplicity-record");
     if let Some((_, r)) = &c0.edge {
@@ -217,7 +226,8 @@ impl Leg for Runs {
                         })
                         .boxed(),
                 ];
-                (gen::records_mixed_in_container(p), alt, prop_oneof![60 => Just(None), 2 => (any::<u16>(), Just(3_000usize)).prop_map(Some), 1 => (any::<u16>(), Just(140_000usize)).prop_map(Some)], edge).prop_map(move |((recs, cont), alt, stretch, edge)| {
+                let poly = prop_oneof![12 => Just(None), 1 => (prop::sample::select(vec![255usize, 256, 1000, 1024, 4096, 65535, 65536]), -1i64..=1).prop_map(|(m, d)| Some((m as i64 + d) as usize))];
+                (gen::records_mixed_in_container(p), alt, prop_oneof![60 => Just(None), 2 => (any::<u16>(), Just(3_000usize)).prop_map(Some), 1 => (any::<u16>(), Just(140_000usize)).prop_map(Some)], edge, poly).prop_map(move |((recs, cont), alt, stretch, edge, poly)| {
                     // the alternative counting input shares a prefix of the records so multiplicities differ
                     let alt = alt.map(|(mut a, share)| {
                         let take = crate::util::idx16(share, recs.len() + 1);
@@ -226,7 +236,7 @@ impl Leg for Runs {
                         }
                         a
                     });
-                    Case { recs, cont, alt, k, bin_size, bin_count, norm, threads, mem, delim: delim.to_string(), stretch, edge }
+                    Case { recs, cont, alt, k, bin_size, bin_count, norm, threads, mem, delim: delim.to_string(), stretch, edge, poly }
                 })
             })
             .boxed()
@@ -295,7 +305,7 @@ fn rewrite(recs: &[Rec], how: Rewrite) -> Vec<Rec> {
 
 pub fn check_rerun(c: &RerunCase) -> Verdict {
     let mut v = Verdict::new();
-    let a = &Case { recs: materialise(&c.first), edge: None, stretch: None, ..c.first.clone() };
+    let a = &Case { recs: materialise(&c.first), edge: None, poly: None, stretch: None, ..c.first.clone() };
     let second_recs = rewrite(&a.recs, c.rewrite);
     let second_alt = a.alt.as_ref().map(|x| rewrite(x, c.rewrite));
     v.class(format!("rerun-{:?}", c.rewrite));
@@ -390,7 +400,36 @@ impl Leg for Rerun {
     }
 }
 
+/// contention on new keys while the table is counted (adjacent duplicate records, many threads): bin size 1 and
+/// many bins, so that one lost occurrence moves its windows to another bin
+#[derive(Clone, Debug, Serialize, Deserialize)]
+pub struct DupCase {
+    pub spec: gen::DupSpec,
+    pub k: usize,
+    pub threads: usize,
+    pub mem: CovMem,
+}
+
+pub struct DupStress;
+impl Leg for DupStress {
+    type Case = DupCase;
+    const NAME: &'static str = "contention-new-keys";
+    fn strategy(_tier: Tier) -> BoxedStrategy<DupCase> {
+        (gen::dup_strategy(), 7usize..=21, 4usize..=16, prop::sample::select(vec![CovMem::Six, CovMem::One, CovMem::Half, CovMem::Chunks(2)])).prop_map(|(spec, k, threads, mem)| DupCase { spec, k, threads, mem }).boxed()
+    }
+    fn check(c: &DupCase) -> Verdict {
+        let case = Case { recs: c.spec.expand(), cont: Container::plain_fasta(), alt: None, k: c.k, bin_size: 1, bin_count: 24, norm: false, threads: c.threads, mem: c.mem, delim: " ".into(), stretch: None, edge: None, poly: None };
+        let mut v = check_case(&case);
+        v.class("stress-new-keys");
+        v.nontrivial = true;
+        v
+    }
+}
+
 pub fn run(ctx: &mut Ctx) {
+    let n = ctx.share(ctx.tier.pick(240, 4_800));
+    ctx.run_leg::<DupStress>(n, true, 20);
+
     let n = ctx.share(ctx.tier.pick(800, 12_000));
     ctx.run_leg::<Rerun>(n, true, 100);
 
@@ -402,6 +441,7 @@ pub fn replay(leg: &str, case: &serde_json::Value) -> Option<Result<Verdict, Str
     match leg {
         "runs" => Some(crate::engine::replay_leg::<Runs>(case)),
         "rerun-in-place" => Some(crate::engine::replay_leg::<Rerun>(case)),
+        "contention-new-keys" => Some(crate::engine::replay_leg::<DupStress>(case)),
         _ => None,
     }
 }
